@@ -1106,13 +1106,45 @@ func (n *normalizer) expandMode(call *ast.CallExpr, st *inlState, tail bool) (pr
 		declared := n.declaredNames(fd)
 		for _, lp := range litParams {
 			clash := false
+			var clashing []string
 			for name := range n.freeNames(lp.lit) {
 				if declared[name] {
 					clash = true
+					clashing = append(clashing, name)
 				}
 			}
 			if clash {
-				continue
+				// the literal and the helper use the same name for different things (a receiver called `bucket`
+				// on both sides): the helper's own variables of that name are renamed in the pasted copy
+				renamed := map[string]string{}
+				okRename := true
+				for _, name := range clashing {
+					for _, nr := range namedResOf(fd) {
+						if nr == name {
+							okRename = false
+						}
+					}
+					renamed[name] = fmt.Sprintf("%s__%s", name, tag)
+				}
+				if !okRename || !n.renameHelperVars(cb, fd, renamed) {
+					continue
+				}
+				for _, l := range bindL {
+					if id, isId := l.(*ast.Ident); isId {
+						if nn, has := renamed[id.Name]; has {
+							id.Name = nn
+						}
+					}
+				}
+				for _, ks := range keep {
+					if as, isAs := ks.(*ast.AssignStmt); isAs && len(as.Rhs) == 1 {
+						if id, isId := as.Rhs[0].(*ast.Ident); isId {
+							if nn, has := renamed[id.Name]; has {
+								id.Name = nn
+							}
+						}
+					}
+				}
 			}
 			savedStats := n.stats.Expanded
 			if !n.inlineLitCalls(cb, lp.pv, lp.lit) {
